@@ -878,7 +878,9 @@ fn main() {
                     ("unary-on-string(neg)", Box::new(move |e: &E| par(E::Neg(Box::new(E::Paren(Box::new(e.clone()))))))),
                 ];
                 for (ui, (fam, mk)) in unary.iter().enumerate() {
-                    if !thorough && ui > 0 && (pi + k as usize + ui) % 3 != 0 {
+                    // thinned in both tiers (the thorough tier is sized to its time limit): the first mutant at every
+                    // string position, the others at every third; thorough: on every third program only
+                    if (ui > 0 && (pi + k as usize + ui) % 3 != 0) || (thorough && pi % 3 != 0) {
                         continue;
                     }
                     if let Some((q, hit)) = map_prog(&p, k, mk.as_ref()) {
